@@ -2,7 +2,8 @@
 """Seeded-change bookkeeping.
   seeded.py confirm <name> <prop> <outdir> <worktree>   -- re-verify a sub-agent's change in a scratch worktree
                                                              and copy it to /verif/seeded/<name>/
-  seeded.py try <name> [quick|thorough] [prop]           -- apply seeded/<name>/patch.diff to /repo, run the check, undo
+  seeded.py try <name> [quick|thorough] [prop]           -- apply seeded/<name>/patch.diff to /repo (or $VERIF_REPO), run the check, undo
+  seeded.py tryall [quick|thorough]                      -- the same for every seeded change, with a tally
 """
 import json, os, re, subprocess, sys, shutil, time
 HERE = os.path.dirname(os.path.dirname(os.path.abspath(__file__)))
@@ -71,9 +72,10 @@ def try_(name, tier="quick", prop=None):
     d = os.path.join(SEEDED, name)
     meta = json.load(open(os.path.join(d, "meta.json")))
     prop = prop or meta["property"]
-    c, o = sh("git -C /repo status --porcelain")
-    assert o.strip() == "", "/repo is not clean"
-    c, o = sh("git -C /repo apply %s/patch.diff" % d)
+    repo = os.environ.get("VERIF_REPO", "/repo")
+    c, o = sh("git -C %s status --porcelain" % repo)
+    assert o.strip() == "", "%s is not clean" % repo
+    c, o = sh("git -C %s apply %s/patch.diff" % (repo, d))
     assert c == 0, o
     try:
         t0 = time.time()
@@ -83,7 +85,7 @@ def try_(name, tier="quick", prop=None):
             print("HARNESS:", r.stderr[-1500:])
         res = {"check": "./check %s %s" % (prop, tier), "exit": r.returncode, "violations": [v[:400] for v in viol[:4]], "n_violation_lines": len(viol), "wall_s": round(time.time() - t0, 1)}
     finally:
-        sh("git -C /repo checkout -- .")
+        sh("git -C %s checkout -- . && git -C %s clean -fdq" % (repo, repo))
     meta.setdefault("checks", {})["%s %s" % (prop, tier)] = res
     meta["caught"] = any(v["exit"] == 1 for v in meta["checks"].values())
     json.dump(meta, open(os.path.join(d, "meta.json"), "w"), indent=1)
@@ -95,5 +97,18 @@ if __name__ == "__main__":
     a = sys.argv[1:]
     if a[0] == "confirm":
         sys.exit(0 if confirm(a[1], a[2], a[3], a[4]) else 1)
+    if a[0] == "tryall":
+        # every seeded change against the quick check of its property, final machinery; table at the end
+        names = sorted(n for n in os.listdir(SEEDED) if os.path.exists(os.path.join(SEEDED, n, "patch.diff")))
+        out = {}
+        for n in names:
+            try:
+                out[n] = try_(n, a[1] if len(a) > 1 else "quick")
+            except Exception as e:
+                out[n] = "error: %s" % e
+                sh("git -C %s checkout -- ." % os.environ.get("VERIF_REPO", "/repo"))
+        caught = sum(1 for v in out.values() if v == 1)
+        print("tryall: %d of %d seeded changes caught (exit 1 with a VIOLATION line); others: %s" % (caught, len(out), {k: v for k, v in out.items() if v != 1}))
+        sys.exit(0)
     if a[0] == "try":
         sys.exit(0 if try_(a[1], a[2] if len(a) > 2 else "quick", a[3] if len(a) > 3 else None) in (0, 1) else 2)
